@@ -250,6 +250,20 @@ func c12FilterCheck(run *Run, r *rand.Rand) {
 		return
 	}
 	want := tree.eval(event, vars)
+	// the meaning of "passes": the Lean model Misc.SubFilter (the Go evaluation above is a second, independent reading)
+	raw, derr := run.Pool.Ask("c12.filter", in)
+	if derr != nil {
+		run.Violate(Violation{Kind: "correspondence", Clause: "driver", Input: in, Detail: derr.Error()}, "")
+		return
+	}
+	var m struct {
+		Passes bool `json:"passes"`
+	}
+	_ = json.Unmarshal(raw, &m)
+	if m.Passes != want {
+		run.Violate(Violation{Kind: "correspondence", Clause: "filter model ≠ harness evaluation", Input: in, Detail: fmt.Sprintf("Misc.SubFilter.passes = %v, the harness' evaluation = %v", m.Passes, want)}, "")
+		return
+	}
 	if skip == want {
 		run.Violate(Violation{Kind: "oracle", Clause: "filter_decides_by_value", Input: in,
 			Detail: fmt.Sprintf("SkipEvent says skip=%v; the event %s the filter (its field values against the listed values, by type and value)", skip, map[bool]string{true: "passes", false: "does not pass"}[want])}, "")
